@@ -383,3 +383,13 @@ impl<'pool, 'scope> Drop for PoolScope<'pool, 'scope> {
         log("EScopeEnd".to_string());
     }
 }
+
+/// `crossbeam_utils::…` and `scoped_threadpool::…` paths of the generated source are redirected here (build.rs)
+pub mod cb {
+    pub mod thread {
+        pub use super::super::{scope, Scope, ScopedJoinHandle};
+    }
+}
+pub mod stp {
+    pub use super::{Pool, PoolScope as Scope};
+}
